@@ -700,6 +700,52 @@ func TestVerif_C19(t *testing.T) {
 			}
 		}
 	}
+	// ---------- StreamBlocks up to the last possible slot: nothing outside the range, and the loop must not wrap ----------
+	for _, start := range []uint64{^uint64(0) - 3, ^uint64(0), blockSlots[len(blockSlots)-2]} {
+		mine := vkit.Mine(caseIdx)
+		caseIdx++
+		if !mine {
+			continue
+		}
+		end := ^uint64(0)
+		var want []uint64
+		for _, sl := range blockSlots {
+			if sl >= start {
+				want = append(want, sl)
+			}
+		}
+		for _, withIdx := range []bool{false, true} {
+			m := mNo
+			if withIdx {
+				m = mIdx
+			}
+			q := map[string]interface{}{"rpc": "StreamBlocks", "scenario": "range-ends-at-the-last-slot", "start": start, "index_loaded": withIdx}
+			cctx, cancel := context.WithTimeout(context.Background(), 3*time.Second)
+			sb := &vkBlockStream{vkStreamBase: vkStreamBase{ctx: cctx}}
+			var serr error
+			okCall := guard("StreamBlocks", q, func() {
+				serr = m.StreamBlocks(wire(&old_faithful_grpc.StreamBlocksRequest{StartSlot: start, EndSlot: &end}).(*old_faithful_grpc.StreamBlocksRequest), sb)
+			})
+			cancel()
+			if !okCall {
+				continue
+			}
+			var got []uint64
+			for _, b := range sb.Got {
+				got = append(got, b.Slot)
+			}
+			R.Case(true, "")
+			outside := 0
+			for _, g := range got {
+				if g < start {
+					outside++
+				}
+			}
+			if outside > 0 || (serr == nil && fmt.Sprint(got) != fmt.Sprint(want)) {
+				R.Violation("C19|StreamBlocks|range-ends-at-the-last-slot", fmt.Sprintf("StreamBlocks[%d, MaxUint64] index_loaded=%v: want slots %v, got %v (%d of them below the start slot) err=%v", start, withIdx, want, got, outside, serr), q)
+			}
+		}
+	}
 	R.Sample(map[string]interface{}{"archived_transactions": len(all), "block_slots": blockSlots})
 }
 
